@@ -18,10 +18,16 @@
       occurrences together; the renaming has a left inverse, as every injective one does);
       `C10_renaming_valid_partial` — a closed tableau for the argument excludes every countermodel
       of the renamed argument, and conversely.
-  NOT YET A THEOREM: from "no countermodel exists" to "the finished tableau has no limit-free open
-  branch" is C02's Hintikka lemma — hence `_partial`; that step is covered by metamorphic runs of
-  the real prover (same argument renamed / with an added premise / with the conclusion repeated
-  as a premise), including first-order modal arguments.
+    * with the Hintikka lemma (C02): `C10_monotone_no_refutation(_fo)_partial`,
+      `C10_renaming_no_refutation(_fo)_partial` — a closed tableau for Γ ⊢ A (resp. for the argument)
+      and a SATURATED open branch, in any derivation, for Γ,B ⊢ A (resp. for the renamed argument)
+      exclude each other; propositional + modal branches for the logics with weights, first-order
+      branches (quantifier rules) for those with weights for every row.
+  `_partial`: branches with Identity / Existence are outside the Hintikka lemma (the calculus is
+  incomplete for identity), and "a completed tableau's open branches are saturated" is a property
+  of the search (Ptx/Props/Search.lean; checked on every real run by the driver); both are covered
+  by metamorphic runs of the real prover (same argument renamed / with an added premise / with
+  the conclusion repeated as a premise), including first-order modal arguments.
 -/
 import Ptx.Proofs.Grow
 import Ptx.Proofs.Rename
